@@ -576,7 +576,7 @@ func (ex *Exec) evalBin(e *Expr, env *Env) Val {
 		if a.IsFalse() || ex.pcRefutes(a) {
 			return ex.boolV(ts.True())
 		}
-		return ex.boolV(ts.Implies(a, ex.asBool(ex.eval1(e.Args[1], env))))
+		return ex.boolV(ts.Implies(a, ex.softBool(e.Args[1], env)))
 	case "<==>":
 		return ex.boolV(ts.Eq(ex.asBool(ex.eval1(e.Args[0], env)), ex.asBool(ex.eval1(e.Args[1], env))))
 	case "++":
@@ -912,4 +912,22 @@ func (ex *Exec) pcRefutes(t *Term) bool {
 		}
 	}
 	return true
+}
+
+
+// softBool evaluates the consequent of an implication; a local variable that does not exist on this path makes the
+// consequent false (so the antecedent must be infeasible here), instead of aborting the whole function.
+func (ex *Exec) softBool(e *Expr, env *Env) (res *Term) {
+	savedPC := len(ex.st.pc)
+	defer func() {
+		if r := recover(); r != nil {
+			if u, ok := r.(unsupported); ok && strings.Contains(u.msg, "unknown identifier") {
+				ex.st.pc = ex.st.pc[:savedPC]
+				res = ex.ts.False()
+				return
+			}
+			panic(r)
+		}
+	}()
+	return ex.asBool(ex.eval1(e, env))
 }
